@@ -2,7 +2,7 @@ SPEC = {
     'id': 'C14',
     'properties_file': 'theories/Properties/C14.v',
     'properties_module': 'Properties.C14',
-    'gen_files': ['theories/GenFacts/ConstsFacts.v'],
+    'gen_files': ['theories/GenFacts/ConstsFacts.v', 'theories/GenFacts/OutOfStoreFacts.v'],
     'streams': [{
         'name': 'push', 'pkg': './pkg/secretstore', 'test': 'TestVerifC14',
         'files': [('pkg/secretstore', 'harness/secretstore/zz_verif_common_test.go'),
@@ -24,6 +24,7 @@ SPEC = {
     'trusted_base': [
         'Coq 8.16.1 kernel; vm_compute for evaluating the model on cases',
         'no axioms',
+        'translator gen/outofstore.go (OutOfStoreMessageOpen: initial value of the newly-decrypted flag, first key look-up, statements on hit and on miss, expression returned, lock/call skeleton)',
         'harness/secretstore/zz_verif_c14_test.go', 'harness/root/zz_verif_c14svc_test.go (hand-assembled service values around real stores)',
         'modelled, not verified: HKDF-SHA3 reference digest (symbolic: a reference is stored iff its counter is in the recorded window), '
         'secretbox, Ed25519, go-datastore',
